@@ -41,4 +41,16 @@ CHECKS = {
         "text": "Every network with <=3 unit-coefficient reactions over 3 species up to permutation (plus a coefficient-2 family and symmetric rings) is canonicalised under all 6 renamings x all reaction orders x 2 id schemes in 3 view configurations; all presentations must give the same canonical graph, which must be isomorphic to the view; canonical digests of the whole family are grouped and every group is verified pairwise isomorphic (non-isomorphic views never share a canonical graph); automorphism counts and orbits of CRNCanonicalizer and CRNAutomorphism are compared with brute-force automorphism enumeration. The id seam explores every legal reuse of a dead temporary's id (<=2 deviations).",
         "note": "Canonical graphs compared on structure + the configured attribute keys. After the D14 repair the implementation no longer calls id(), so the seam has no choice points on the current tree (reported in the evidence); it is kept so that a re-introduced identity-keyed cache is explored.",
     },
+    "C06": {
+        "ready": True, "engine": "E1",
+        "technique": "bounded-exhaustive enumeration of all labelled host x pattern pairs, SubgraphSearchEngine vs. an independent backtracking monomorphism enumerator, all strategies and limit settings",
+        "text": "All labelled hosts with <=3 atoms (2 elements x hcount {0,1}, 2 bond orders, disconnected included) x all labelled patterns with <=2 atoms (thorough: <=3), and class representatives with 4 (thorough: 5) atoms, are searched with strategies all/comp/bt, strict_cc_count on/off, two attribute selections, max_results, six threshold settings around the true match count, and the pre-filter; every answer is compared as a set (and for duplicates, input mutation, prefix order) with the oracle's monomorphisms and the component rule.",
+        "note": "Limits are read weakly (see assumptions in the evidence) so that no behaviour the statement allows raises an alarm. Node attribute alphabets are small (4 labels).",
+    },
+    "C07": {
+        "ready": True, "engine": "E1+E2",
+        "technique": "bounded-exhaustive enumeration of ordered pairs of small labelled graphs through every matcher entry point and flag, vs. an independent backtracking enumerator; exhaustive query histories over engines sharing graph objects vs. fresh-cache answers",
+        "text": "Class representatives (<=3 atoms; thorough <=4) x all labelled graphs (<=3 atoms) over 3 node labels and 2 bond orders, plus an hcount family, are queried through GraphMatcherEngine.isomorphic/get_mappings (filter on/off, max_mappings), SubgraphMatch.subgraph_isomorphism/is_subgraph and the graph_morphism twins (use_filter on/off, induced/monomorphism, disjoint and overlapping node ids); verdicts, validity and existence of embeddings, and filter-independence are compared with brute force. All query histories of depth 2 (thorough: 3) over four engines with different attribute selections sharing four colliding graph objects are executed; the last answer must equal the same call on a fresh cache and the definition.",
+        "note": "Containment for get_mappings is induced sub-graph isomorphism (the implementation's notion). In-place mutation of graphs between queries is documented as unsupported and not explored.",
+    },
 }
